@@ -59,9 +59,12 @@ class COOData:
         local = np.moveaxis(self.data.reshape(self.local_shape + (-1,),
                                               order='C'), -1, 0)
         if basis is not None:
-            out = np.zeros((basis.mesh.nfacets,) + local.shape[1:])
-            out[basis.find] = local
-            local = np.sum(out[basis.mesh.t2f], axis=0)
+            # the matrix of a facet is written in the local DOFs of its
+            # cell basis.tind
+            out = np.zeros((basis.mesh.nelements,) + local.shape[1:],
+                           dtype=local.dtype)
+            np.add.at(out, basis.tind, local)
+            local = out
 
         return local
 
